@@ -18,7 +18,7 @@ RULE = (
     "(none / built-in / composition of 1-3) x choice sequence (each step picks "
     "among filtered available operations or among all raw ready operations, and "
     "an eligible machine, optionally omitting the machine id for single-machine "
-    "operations), optionally preceded by an abandoned partial episode and a "
+    "operations, optionally after read-only queries in that state), optionally preceded by an abandoned partial episode and a "
     "reset() on the same dispatcher. Oracle: independent feasibility checker on "
     "dispatcher.schedule.schedule after every dispatch + is_complete exactly "
     "after num_operations dispatches. Mode 'exhaustive': every dispatch history "
@@ -42,8 +42,9 @@ def strategy(tier):
         max_machines=6 if big else 5,
         max_total=36 if big else 25,
         benchmarks=("ft06", "la01") if big else ("ft06",),
+        big_ok=True,
     )
-    step = st.tuples(st.integers(0, 7), st.integers(0, 5), st.integers(0, 3)).map(list)
+    step = st.tuples(st.integers(0, 7), st.integers(0, 5), st.integers(0, 7)).map(list)
     seq = st.fixed_dictionaries(
         {
             "mode": st.just("sequence"),
@@ -99,6 +100,13 @@ def _sequence(case, ctx):
     jobs_seq = []
     for k in range(n):
         a, b, r = history[k] if k < len(history) else (0, 0, 0)
+        if r & 4:
+            # a monitoring client reads the state between dispatches
+            drv.dispatcher.current_time()
+            drv.dispatcher.available_operations()
+            for o in drv.dispatcher.raw_ready_operations():
+                for mm in o.machines:
+                    drv.dispatcher.start_time(o, mm)
         pool = "available" if (filters and not r & 1) else "ready"
         if pool == "available" and not drv.dispatcher.available_operations():
             pool = "ready"  # an empty filter result is C07's business
